@@ -14,7 +14,7 @@ CLAIMS = {
                 'evaluator model returns exactly what the independent step-by-step specification coq/Spec.v selects — values, '
                 'multiplicity, order, accessor wrapping — and fails exactly when the specification selects nothing; unbounded path '
                 'depth, filter nesting and document size. C01_end_to_end: from the path TEXT — every tree Parse returns is well formed '
-                '(C02_parsed_trees_well_formed), so no hypothesis on the tree remains. C01_chain_retrieval: for EVERY path made of name steps (three spellings), index steps, wildcard steps and slice steps, each possibly after `..`, the text is '
+                '(C02_parsed_trees_well_formed), so no hypothesis on the tree remains. C01_chain_retrieval: for EVERY path made of name steps (three spellings), index steps, wildcard steps, slice steps and union steps, each possibly after `..`, the text is '
                 'accepted and the retrieval returns exactly the values reached by walking the DOCUMENT step by step (nav_all, defined '
                 'without any syntax tree: one value for a name or index, all members in ascending key order / all elements in index order '
                 'for a wildcard, `..step` = the step applied to every container below in pre-order), in order, with locations in accessor mode, failing exactly when nothing is reached — by induction over the '
@@ -137,7 +137,7 @@ CLAIMS = {
                 'subscript files, with explicit 64-bit wrap-around and the result-buffer bound as a panic outcome, selects '
                 'exactly Python\'s slice for every int64 start/end/step (each possibly omitted) and every length < 2^62, never '
                 'panics and stays in range. The model is tied to /repo by running it and the library on the small scope '
-                '(exhaustive in the thorough tier) and on the int64 boundary magnitudes, also against Python\'s own slicing. FROM THE PATH TEXT: C11_slice_from_text — for every slice text [a:b] / [a:b:c] (bounds omitted or optionally signed numbers fitting int64) the path is accepted through the regenerated slice/anyIndex/sepSlice rules and actions 21/20/16/19 and returns exactly the elements of py_slice (C11_slice_nav), failing exactly when it selects nothing; unsigned indexes [digits] likewise (C16_member_addressable_at_depth).',
+                '(exhaustive in the thorough tier) and on the int64 boundary magnitudes, also against Python\'s own slicing. FROM THE PATH TEXT: C11_slice_from_text — for every slice text [a:b] / [a:b:c] (bounds omitted or optionally signed numbers fitting int64) the path is accepted through the regenerated slice/anyIndex/sepSlice rules and actions 21/20/16/19 and returns exactly the elements of py_slice (C11_slice_nav), failing exactly when it selects nothing; C11_union_from_text / C11_union_nav — unions [s1,s2,...] of optionally signed indexes (py_index: from the back when negative, nothing when out of range), slices and wildcards, in written order with duplicates kept.',
         'note': NOTE_COMMON + ' Go int is assumed to be 64 bit; array lengths below 2^62.',
         'technique': 'Coq proof (induction on loop fuel, lia/nia) over a hand model + differential correspondence check'},
     'C12': {
